@@ -284,6 +284,9 @@ func gen(tier string, r *lib.Rand, emit func(string)) {
 		}
 	}
 
+	// (e) composition shapes: nested use_first trees
+	genShapes(tier, r, emit)
+
 	// (d) histories: several calls in one process
 	genHistories(tier, r, emit)
 }
@@ -393,7 +396,8 @@ func workerLoop() {
 		if f[0] == "shist" {
 			fmt.Fprintln(w, runHistory(f[1]))
 		} else {
-			fmt.Fprintln(w, direct(byName[f[0]].alg, lib.ParseHexList(f[1])))
+			cfg, _ := lookupAlg(f[0])
+			fmt.Fprintln(w, direct(cfg.alg, lib.ParseHexList(f[1])))
 		}
 		w.Flush()
 	}
@@ -433,7 +437,7 @@ func parse(c string) (config, []*big.Int) {
 	if len(f) != 3 || f[0] != "findsequence" {
 		panic("unknown case " + c)
 	}
-	cfg, ok := byName[f[1]]
+	cfg, ok := lookupAlg(f[1])
 	if !ok {
 		panic("unknown algorithm " + f[1])
 	}
@@ -444,8 +448,15 @@ func run(c string) string {
 	if strings.HasPrefix(c, "shist ") {
 		return callLine(c)
 	}
-	cfg, ts := parse(c)
-	return call(cfg.alg.String(), ts)
+	if strings.HasPrefix(c, "hname ") {
+		cfg, ok := lookupAlg(strings.TrimPrefix(c, "hname "))
+		if !ok {
+			panic("unknown algorithm in " + c)
+		}
+		return "ok " + cfg.alg.String()
+	}
+	_, ts := parse(c)
+	return call(strings.Split(c, " ")[1], ts)
 }
 
 // ---- oracle: the property stated directly ----
@@ -514,6 +525,25 @@ func inDomain(ts []*big.Int) bool {
 }
 
 func oracle(c, res string) string {
+	if strings.HasPrefix(c, "hname ") {
+		tok := strings.TrimPrefix(c, "hname ")
+		if strings.HasPrefix(tok, "T=") {
+			// either the composition as written or its leaves spliced in order describes it faithfully
+			t := mustTree(tok[2:])
+			flat := &tree{}
+			for _, l := range t.leaves() {
+				flat.kids = append(flat.kids, &tree{leaf: l})
+			}
+			alt := "ok heuristic(" + flat.name() + ")"
+			if t.leaf != 0 {
+				alt = "ok heuristic(" + t.name() + ")"
+			}
+			if want := "ok heuristic(" + t.name() + ")"; res != want && res != alt {
+				return "String() names neither the composition as written nor its leaves in order: want " + want
+			}
+		}
+		return ""
+	}
 	if strings.HasPrefix(c, "shist ") {
 		return oracleHistory(strings.TrimPrefix(c, "shist "), res)
 	}
@@ -537,7 +567,7 @@ func oracle(c, res string) string {
 		return "" // a partial heuristic on its own may give up
 	}
 	// independent second run: the function is deterministic
-	if again := call(cfg.alg.String(), orig); again != res {
+	if again := call(strings.Split(c, " ")[1], orig); again != res {
 		return "second run differs: " + again
 	}
 	f := strings.Fields(res)
@@ -573,6 +603,9 @@ func oracle(c, res string) string {
 }
 
 func nontrivial(c, res string) bool {
+	if strings.HasPrefix(c, "hname ") {
+		return strings.Contains(c, "U(U")
+	}
 	if strings.HasPrefix(c, "shist ") {
 		return strings.Count(res, "ok:") >= 2
 	}
